@@ -201,7 +201,10 @@ Section WithCrypto.
       e1 <-- lift (sub64 "end - 1" e' 1) ;;;
       '(lo, ll) <-- lift (byte_range (c_tree c) (d_tree d) e1) ;;;
       clear_length <-- lift (sub64 "clear length" (lo + ll) clear_offset) ;;;
-      emit [SD Data clear_offset clear_length] ;;;
+      (* the hole is deleted only when it is non-empty and starts inside the data store (the store may have
+         been truncated by an earlier delete that reached its end) *)
+      (if (0 <? clear_length) && (clear_offset <? f_len (d_data d))
+       then emit [SD Data clear_offset clear_length] else ret tt) ;;;
       maybe_flush forced.
 
   Definition core_create_proof (block hash : option req_block) (seek : option req_seek)
